@@ -106,6 +106,8 @@ void setFailHook(void (*fn)(int, bool, int)) { failHook = fn; }
 void setDnsDelayMs(int ms) { dnsDelayMs = ms; }
 int openFdCount() { return (int)rootTable.m.size(); }
 int fileIdWatermark() { return nextFileId; }
+size_t acceptQueueLen(int fd) { File* f = lookup(fd); return (f && f->kind == FK_LISTENER) ? f->acceptQ.size() : 0; }
+size_t peerSpace(int fd) { File* f = lookup(fd); if (!f || !f->peer || f->peerClosed) return 0; return f->peer->q.size() < f->peer->capacity ? f->peer->capacity - f->peer->q.size() : 0; }
 
 static void callFailHook(int fd, bool isSend, int err) { NoPreempt np; failHook(fd, isSend, err); }
 static void completeConnect(void* a) { File* f = (File*)a; if (f->refs > 0 && f->connecting) { f->connecting = false; if (!f->refused) f->connected = true; else f->soError = ECONNREFUSED; } }
